@@ -77,6 +77,8 @@ def fr(x) -> Fraction:
 
 
 def q_s(x) -> str:
+    if isinstance(x, float) and not math.isfinite(x):
+        return "nan" if x != x else ("inf" if x > 0 else "-inf")     # never produced by the exact model
     f = fr(x)
     return f"{f.numerator}/{f.denominator}"
 
@@ -86,7 +88,9 @@ def num_s(mode: str, x) -> str:
 
 
 def num_p(mode: str, tok: str):
-    return Fraction(tok) if mode == "Q" else unhx(tok)
+    if mode == "Q":
+        return float(tok) if tok in ("nan", "inf", "-inf") else Fraction(tok)
+    return unhx(tok)
 
 
 def vals_s(mode, xs) -> str:
@@ -127,6 +131,8 @@ def tok_close(mode: str, a: str, b: str, rtol: float) -> bool:
                 if p == q:
                     continue
                 if p == "-" or q == "-":
+                    return False
+                if mode == "Q" and (p in ("nan", "inf", "-inf") or q in ("nan", "inf", "-inf")):
                     return False
                 x, y = num_p(mode, p), num_p(mode, q)
                 if mode == "F":
@@ -766,7 +772,10 @@ def relational(ctx, ex: Exploration, count: int):
                     continue
                 for tens in (False, True):
                     time = torch.full((P,), t, dtype=T64) if tens else t
-                    got = rt.select(time, INTERP[iname2], tolerance=tol, offset=off, interp_kwargs=_kw(iname2, const))
+                    try:
+                        got = rt.select(time, INTERP[iname2], tolerance=tol, offset=off, interp_kwargs=_kw(iname2, const))
+                    except ValueError:
+                        got = torch.full((P,), float("nan"), dtype=T64)   # insert accepted the time, select rejects it
                     ex.evaluations += 1
                     stats["round_trip"] += 1
                     if not close_t(got, obs, 0.0 if exact_pair and dyadic else 1e-9):
